@@ -76,23 +76,13 @@ theorem tree_conditional_marks_reviewed : Gen.conditionalMarks = reviewedConditi
 /-- The shard function of the engine is the model's: 16 shards, FNV-1a 64 (`get_shard_index`). -/
 theorem tree_shard_function : Gen.shardConsts = (16, fnvOffset, fnvPrime) := by decide
 
-/-- Mutators that BYPASS the storage engine and do not mark, reviewed: the consumer-group handlers take the stream
-    through `StorageEngine::get` — a clone that shares the stream's state — and change groups, consumers, pending
-    entries and the last-delivered id directly.  These are writes of the server (`is_write_command`) and change what
-    XINFO GROUPS / XPENDING / XREADGROUP read back, so by the text of the property they must abort a transaction
-    that watches the stream (open finding C08-group-writes-bypass-watch, repair proposed as C08_8: each handler
-    calls `StorageEngine::touch`).  Redis itself does not call signalModifiedKey for them (only for the key created
-    by XGROUP CREATE … MKSTREAM), so the repair makes ferrous stricter than Redis here, never laxer. -/
-def reviewedBypass : List (String × String × String) :=
-  [("storage/commands/consumer_groups.rs", "handle_xack", "acknowledge_messages"),
-   ("storage/commands/consumer_groups.rs", "handle_xautoclaim", "auto_claim_messages"),
-   ("storage/commands/consumer_groups.rs", "handle_xclaim", "claim_messages"),
-   ("storage/commands/consumer_groups.rs", "handle_xgroup_create", "create_consumer_group"),
-   ("storage/commands/consumer_groups.rs", "handle_xgroup_createconsumer", "create_consumer"),
-   ("storage/commands/consumer_groups.rs", "handle_xgroup_delconsumer", "delete_consumer"),
-   ("storage/commands/consumer_groups.rs", "handle_xgroup_destroy", "destroy_consumer_group"),
-   ("storage/commands/consumer_groups.rs", "handle_xgroup_setid", "set_id"),
-   ("storage/commands/consumer_groups.rs", "handle_xreadgroup", "read_group")]
+/-- Mutators that BYPASS the storage engine and do not mark, reviewed: none.  The consumer-group handlers take the
+    stream through `StorageEngine::get` — a clone that shares the stream's state — and change groups, consumers,
+    pending entries and the last-delivered id directly; until 9294300 they never reached `mark_modified` (hunt
+    C08/d2), now each calls `StorageEngine::touch` after a successful mutation (`Gen.bypassMutators`: touches = true).
+    Redis itself does not call signalModifiedKey for them (only for the key created by XGROUP CREATE … MKSTREAM):
+    ferrous is stricter than Redis here, as the text of the property asks. -/
+def reviewedBypass : List (String × String × String) := []
 
 /-- `all_writes_mark` speaks about the functions of StorageEngine; this closes the hole next to it: every function
     OUTSIDE the engine that changes the shared state of a stored stream / consumer group / skip list either calls
@@ -100,11 +90,14 @@ def reviewedBypass : List (String × String × String) :=
 theorem no_unmarked_bypass :
     ∀ x ∈ Gen.bypassMutators, x.2.2.2 = true ∨ (x.1, x.2.1, x.2.2.1) ∈ reviewedBypass := by decide
 
-/-- The reviewed list is exact on the current tree (every listed handler still bypasses without marking) — or, with
-    C08_8 applied, nothing bypasses without marking any more (`reviewedBypass` can then be emptied). -/
+/-- The reviewed list is exact on the current tree: nothing bypasses the engine without marking. -/
 theorem tree_unmarked_bypass_exact :
     (Gen.bypassMutators.filter (fun x => !x.2.2.2)).map (fun x => (x.1, x.2.1, x.2.2.1)) = reviewedBypass ∨
     (Gen.bypassMutators.filter (fun x => !x.2.2.2)) = [] := by decide
+
+/-- process_frame refuses MULTI / EXEC / DISCARD / UNWATCH with surplus arguments before it handles them (35e6048):
+    only the well-formed commands reach the code that clears the watch list. -/
+theorem tree_tx_arity_guard : Gen.txArityGuard = true := by decide
 
 /-- Keys are binary safe on the WATCH path: handle_watch, handle_unwatch and Server::handle_exec pass the bytes of the
     frame to register_watch / unregister_watch / was_modified_since without any text conversion (a lossy UTF-8
@@ -348,13 +341,18 @@ theorem exec_nil_executes_nothing (q : Q) (s : Watch.State) (now c : Nat) (ops :
     rw [conn_setConn]; simp [hne]
   · rw [conn_setConn]; simp [Conn.cleared]
 
-/-- UNWATCH always, EXEC and DISCARD inside MULTI, leave the connection with an empty watch list. -/
+/-- UNWATCH outside MULTI (in the old variant: always), EXEC and DISCARD inside MULTI, leave the connection with an
+    empty watch list. -/
 theorem unwatch_exec_discard_forget (q : Q) (s : Watch.State) (now c : Nat) (ops : List Op) :
-    ((step q s now (.unwatch c)).1.conn c).watched = [] ∧
+    ((q.unwatchQueued = false ∨ (s.conn c).inTx = false) → ((step q s now (.unwatch c)).1.conn c).watched = []) ∧
     ((s.conn c).inTx = true →
       ((step q s now (.exec c ops)).1.conn c).watched = [] ∧ ((step q s now (.discard c)).1.conn c).watched = []) := by
-  refine ⟨?_, fun hin => ⟨?_, ?_⟩⟩
-  · rw [step_unwatch, conn_setConn]; simp
+  refine ⟨fun h => ?_, fun hin => ⟨?_, ?_⟩⟩
+  · rw [step_unwatch]
+    have hc : (q.unwatchQueued && (s.conn c).inTx) = false := by
+      rcases h with h | h <;> simp [h]
+    simp only [hc, Bool.false_eq_true, if_false]
+    rw [conn_setConn]; simp
   · rw [step_exec]
     simp only [hin, Bool.true_eq_false, if_false]
     split
@@ -363,6 +361,27 @@ theorem unwatch_exec_discard_forget (q : Q) (s : Watch.State) (now c : Nat) (ops
   · rw [step_discard]
     simp only [hin, Bool.true_eq_false, if_false]
     rw [conn_setConn]; simp [Conn.cleared]
+
+/-- UNWATCH between MULTI and EXEC (queued variant, the current tree): it is queued — one more slot of EXEC's reply —
+    and forgets nothing: watch list, trackers and dataset are as before, so the watches keep guarding the
+    transaction being built until EXEC checks them. -/
+theorem unwatch_inside_multi_keeps_watches (q : Q) (hq : q.unwatchQueued = true) (s : Watch.State) (now c : Nat)
+    (hin : (s.conn c).inTx = true) :
+    (step q s now (.unwatch c)).2 = .queued ∧
+    ((step q s now (.unwatch c)).1.conn c).watched = (s.conn c).watched ∧
+    ((step q s now (.unwatch c)).1.conn c).queued = (s.conn c).queued + 1 ∧
+    ((step q s now (.unwatch c)).1.conn c).inTx = true ∧
+    (step q s now (.unwatch c)).1.trk = s.trk ∧ (step q s now (.unwatch c)).1.data = s.data := by
+  have h1 : (step q s now (.unwatch c)) =
+      (s.setConn c { (s.conn c) with queued := (s.conn c).queued + 1 }, .queued) := by
+    simp [step, hq, hin]
+  rw [h1]
+  refine ⟨rfl, ?_, ?_, ?_, rfl, rfl⟩ <;> (rw [conn_setConn]; simp [hin])
+
+/-- A command that is refused (MULTI / EXEC / DISCARD / UNWATCH with surplus arguments: `Gen.txArityGuard`) changes
+    nothing: the watches stay, an open MULTI stays open with its queue, the dataset is untouched. -/
+theorem refused_changes_nothing (q : Q) (s : Watch.State) (now c : Nat) :
+    (step q s now (.refused c)).1 = s ∧ (step q s now (.refused c)).2 = .err := ⟨rfl, rfl⟩
 
 /-- ... and afterwards no key is watched: whatever is changed later, by anyone, a later transaction of the
     connection is not aborted, until it WATCHes again. -/
@@ -453,7 +472,7 @@ theorem watch_sound_fails_flush :
     change made before it is forgotten; with the switch on EXEC aborts -/
 theorem watch_sound_fails_rewatch :
     execAfter Q.code hRewatch 1010 = .array 0 ∧ judged Q.code hRewatch 1010 = [(.array 0, .mustNil)] ∧
-    execAfter ⟨true, false, false⟩ hRewatch 1010 = .array 0 ∧ execAfter Q.noPurge hRewatch 1010 = .nil := by decide
+    execAfter ⟨true, false, false, false⟩ hRewatch 1010 = .array 0 ∧ execAfter Q.noPurge hRewatch 1010 = .nil := by decide
 
 /-- old switch `perDb = false` (before 3ed7039): EXEC checks the watched key in the database selected at EXEC
     time — WATCH k; SELECT 1; k changes in db 0; EXEC executes (the history is not `Safe Q.code`) -/
@@ -481,6 +500,20 @@ theorem watch_sound_fails_unwatch_wraps :
     (run Q.code State.init (hUnwatchWraps.take 5)).active 1 (shardOf kWk) = 0 ∧
     execAfter Q.code hUnwatchWraps 1010 = .array 0 ∧ judged Q.code hUnwatchWraps 1010 = [(.array 0, .mustNil)] ∧
     execAfter Q.noPurge hUnwatchWraps 1010 = .nil := by decide
+
+/-- old switch `unwatchQueued = false` (before 7dd14e2, hunt C08/d1): UNWATCH between MULTI and EXEC ran at once and
+    dropped the watches — WATCH wk; MULTI; UNWATCH; another client writes wk; EXEC executed.  Queued (the current
+    tree) EXEC returns nil; the Spec demands nil in both. -/
+theorem watch_sound_fails_unwatch_in_multi :
+    execAfter Q.unwatchAtOnce hUnwatchInMulti 1010 = .array 0 ∧
+    judged Q.unwatchAtOnce hUnwatchInMulti 1010 = [(.array 0, .mustNil)] ∧
+    execAfter Gen.watchQ hUnwatchInMulti 1010 = .nil ∧ judged Gen.watchQ hUnwatchInMulti 1010 = [(.nil, .mustNil)] := by decide
+
+/-- refused UNWATCH / EXEC / DISCARD (surplus arguments, hunt C08/d3) leave the watch: the later change aborts, and
+    the transaction opened before the refused EXEC / DISCARD is still the one EXEC ends -/
+theorem refused_commands_keep_watches :
+    execAfter Gen.watchQ hRefused 1010 = .nil ∧ judged Gen.watchQ hRefused 1010 = [(.nil, .mustNil)] ∧
+    execAfter Gen.watchQ (hRefused.take 6) 1010 = .array 0 := by decide
 
 /-- old switch `watchPurges = false` (before cf01a0f): WATCH of a key that is stored but already past its
     deadline — nothing happens afterwards, EXEC returns nil although the key was logically absent at WATCH and
